@@ -16,6 +16,7 @@ import Driver.Extent
 import Driver.Fill
 import Driver.Format
 import Driver.CompositeQ
+import Driver.Opacity
 /-! `pixdrv <domain>`: reads requests on stdin, writes one reply line per request. -/
 
 partial def loop (h : IO.FS.Stream) (out : IO.FS.Stream) (f : String → String) : IO Unit := do
@@ -46,4 +47,5 @@ def main (args : List String) : IO UInt32 := do
   | ["fill"] => loop stdin stdout Driver.Fill.handle; return 0
   | ["format"] => loop stdin stdout Driver.Format.handle; return 0
   | ["compositeq"] => loop stdin stdout Driver.CompositeQ.handle; return 0
+  | ["opacity"] => loop stdin stdout Driver.Opacity.handle; return 0
   | _ => IO.eprintln "usage: pixdrv <domain>"; return 2
